@@ -172,7 +172,16 @@ def timers_run(ctx, seed):
             # DPD: last authentic message was received at `created` (clock did not move during the handshake)
             dpd_at = sa.start_dpd_at
             got = None
+            import struct
+            spi_i, spi_r = bytes(sa.my_spi), bytes(sa.peer_spi)
+            noise = [spi_i + spi_r + bytes([0, 0x20, 37, 0x00]) + struct.pack('>LL', sa.peer_msg_id, 28),   # cleartext
+                     spi_i + spi_r + bytes([0, 0x20, 37, 0x20]) + struct.pack('>LL', sa.my_msg_id, 28),
+                     p.history[1][2],                        # replay of the cleartext IKE_SA_INIT response
+                     p.history[3][2][:-1] + bytes([p.history[3][2][-1] ^ 1])]   # corrupted authentic datagram
             for _ in range(6):
+                # nothing authentic arrives, but unauthenticated datagrams keep coming: they must not count as liveness
+                for d in noise:
+                    p.A.datagram('192.168.0.1', '192.168.0.2', d)
                 out = p.do(['tick', 1])
                 reqs = [d for (s, dst, d) in out if s == '192.168.0.1']
                 ctx.case({'kind': 'dpd', 't': p.sim.clock - created, 'emitted': len(reqs)}, nontrivial=True)
@@ -183,8 +192,8 @@ def timers_run(ctx, seed):
                         raise Fail('dpd:not-a-probe', f'first datagram after silence is {reqs[0][:28].hex()}')
                     break
             if got is None or not (got > dpd_at and got - 1 <= dpd_at):
-                raise Fail('dpd:time', f'liveness deadline {dpd_at - created}: probe sent at '
-                           f'{None if got is None else got - created}')
+                raise Fail('dpd:time', f'liveness deadline {dpd_at - created} (last authentic message at +0, unauthenticated '
+                           f'datagrams keep arriving): probe sent at {None if got is None else got - created}')
             p.drain()
             # lifetime: rekey starts at the first sweep after rekey_ike_sa_at
             started = None
